@@ -19,7 +19,7 @@ import time
 
 from harness import kit, ser
 
-BUGS_QUICK = ["sequential", "recursive", "namefirst"]
+BUGS_QUICK = ["sequential", "recursive", "namefirst", "collapse"]
 BUGS_ALL = BUGS_QUICK + ["skipkw", "skipslice", "innermost"]
 
 
@@ -571,7 +571,11 @@ def run(tier, seed, out):
     out.rule = ("TLC enumerates root skeleton (every node kind) x typed holes x substitution maps "
                 "(<= 2 keys quick, <= 3 thorough; names, Variables, Subscript and Lookup nodes; values "
                 "mentioning other keys); pairs in which nothing is replaced are driven for three maps "
-                "only; thorough adds -simulate random deeper trees; one case = one pair through 5 entry "
+                "only; plus same-kind nests (a node directly below a node of its own kind: unary kinds in all "
+                "combinations and three deep, every n-ary / binary kind, CSE, If, Call, Comparison) with a "
+                "key underneath x all quick maps, and every root kind / nest x maps whose inserted value "
+                "is one of each node kind (the replacement creates the nest); thorough adds -simulate "
+                "random deeper trees; one case = one pair through 5 entry "
                 "points, judged in 4 environments + identity flags; non-trivial = non-empty map and a "
                 "composite tree; distinct by canonical JSON digest.  Histories (C08_Hist): 6 pairs of "
                 "caller dicts x every sequence of 2 calls (quick; thorough: + 3 events with the "
